@@ -2,6 +2,8 @@ import NeumannModel.Graph.Spec
 import NeumannModel.Graph.Traverse
 import NeumannModel.Graph.ConcOps
 import NeumannModel.Graph.Atomic
+import NeumannModel.Graph.AtomicBatch
+import NeumannModel.Graph.Exclusive
 /-
   C05 — property theorems for the graph store model.  ONLY property statements and their
   non-vacuity examples live here; helpers are in `Lemmas.lean`.
@@ -544,7 +546,7 @@ theorem delete_node_parallel_path_lost_removal_witness :
     * `delete_edge` of an edge whose `create_edge` is still running
       (`delete_edge_of_edge_in_creation_race_witness`): an id handed out DURING the phase, which a
       client can only guess or discover by a scan,
-    * the batch calls (sequential theorems only).
+    * the batch calls: `quiescent_wf_with_batch_calls_partial` below.
     For operation sets with disjoint footprints see `quiescent_wf_disjoint_partial`. -/
 theorem quiescent_wf_partial (s0 : St) (h : Inv s0) (programs : List (List Op))
     (hadm : ∀ ops ∈ programs, ∀ op ∈ ops, Admissible s0 programs op) : QuiescentWF s0 programs :=
@@ -634,6 +636,118 @@ theorem create_node_record_written_last (id l v : Nat) (s : St) :
   simp [createNodeFrom, Prog.step, upd, nodeEx]
 
 example : nodeEx ((createNodeFrom 3 0 0).step twoNodes).2.kv 3 = false := by decide
+
+/-! ### concurrent: the batch calls -/
+
+/-- `quiescent_wf_partial` with the batch calls: any number of threads, each running any list of
+    `create_node`, `create_edge`, `delete_edge`, `update_node`, `add_label`, `remove_label`,
+    `update_edge`, `batch_create_nodes`, `batch_create_edges` and `batch_delete_edges` operations from
+    any reachable store: for EVERY interleaving of their store calls that the list locks allow, once all
+    threads have finished the store is well-formed.  A batch call is its sequence of store calls (the
+    validation calls of all items first, one block of ids, then `create_edge_internal` /
+    `create_node_internal` / `delete_edge` item by item), every adjacency-list append and removal in it
+    under the lock of that list exactly as in the single operations — so the read-modify-write of a list
+    inside a batch call is atomic w.r.t. every other writer of that list, single or batch, whichever
+    thread runs it.  `batch_create_edges` and `batch_create_nodes` take ANY items (endpoints that do not
+    exist, that another thread is creating right now, self-loops, undirected, empty input).
+    Conditions (`AdmissibleB`): ids named by `delete_edge` / `update_edge` / `batch_delete_edges` were
+    handed out before the phase; no edge both updated and deleted.
+    What is missing w.r.t. the full statement (false: the witnesses above): `delete_node` and
+    `batch_delete_nodes` (node deletion next to anything that touches the node), `batch_update_nodes`
+    (writes node records only; sequential theorems), `update_edge` next to a delete of the same edge. -/
+theorem quiescent_wf_with_batch_calls_partial (s0 : St) (h : Inv s0) (programs : List (List Op))
+    (hadm : ∀ ops ∈ programs, ∀ op ∈ ops, AdmissibleB s0 programs op) : QuiescentWF s0 programs :=
+  quiescentWF_of_admissibleB s0 h programs hadm
+
+/-- the batch that runs in the regression witness below: one directed edge 1→2 -/
+def bce12 : Op := .batchCreateEdges [⟨1, 2, true, 0, 0⟩]
+
+/-- non-vacuity: `batch_create_edges [1→2]` next to `create_edge(1,2)` (the thread set of
+    `batch_create_edges_without_stripe_lock_witness`), and a larger mix on one hub -/
+example : QuiescentWF twoNodes [[bce12], [e12]] :=
+  quiescent_wf_with_batch_calls_partial _ (wf_preserved _ _ inv_empty).1 _ (by
+    intro ops hops op hop
+    simp at hops
+    rcases hops with rfl | rfl <;> simp at hop <;> subst hop <;> trivial)
+
+example : QuiescentWF twoNodesTwoEdges
+    [[.batchCreateEdges [⟨1, 2, false, 0, 0⟩, ⟨2, 2, true, 1, 1⟩, ⟨1, 9, true, 0, 0⟩], .batchDeleteEdges [2, 2, 1]],
+     [.deleteEdge 1, .batchCreateNodes [(0, 0), (1, 1)], .createEdge 3 1 true 0 0],
+     [.batchCreateEdges [⟨2, 1, true, 0, 1⟩], .updateNode 1 none 3]] :=
+  quiescent_wf_with_batch_calls_partial _ (wf_preserved _ _ inv_empty).1 _ (by
+    intro ops hops op hop
+    simp at hops
+    rcases hops with rfl | rfl | rfl <;> simp at hop
+    · rcases hop with rfl | rfl
+      · trivial
+      · intro e he; simp at he; rcases he with rfl | rfl <;> decide
+    · rcases hop with rfl | rfl | rfl
+      · show 1 ≤ twoNodesTwoEdges.ne; decide
+      · trivial
+      · trivial
+    · rcases hop with rfl | rfl <;> trivial)
+
+/-- … the schedule that breaks the variant without the lock (below) is, for the code as it is, a
+    schedule in which `create_edge` meets the lock of `node:1:out` held by the batch call (its grants
+    there do nothing); everything finishes, both edges are listed by both endpoints -/
+example : allFinished (runSched [[bce12], [e12]]
+      [0, 0, 0, 0, 0, 1, 1, 1, 1, 1, 1, 1, 1, 0, 0, 0, 1, 1, 1, 1, 1] twoNodes).1 = true ∧
+    outL (runSched [[bce12], [e12]] [0, 0, 0, 0, 0, 1, 1, 1, 1, 1, 1, 1, 1, 0, 0, 0, 1, 1, 1, 1, 1] twoNodes).2.kv 1 = [1, 2] ∧
+    inL (runSched [[bce12], [e12]] [0, 0, 0, 0, 0, 1, 1, 1, 1, 1, 1, 1, 1, 0, 0, 0, 1, 1, 1, 1, 1] twoNodes).2.kv 2 = [1, 2] := by
+  decide
+
+/-- A `batch_create_edges` whose per-edge body appends to the adjacency lists WITHOUT the list lock
+    (`Op.progBatchWithoutStripeLock`: "the batch is one writer for phase 3", the get + put of
+    `add_edge_to_list` called directly): the batch reads `node:1:out` (empty), `create_edge(1,2)` runs its
+    whole read-modify-write of that list (it takes the lock, which nobody holds) and of `node:2:in`, the
+    batch then writes its stale copy back: edge 2 exists, node 1 does not list it.  Same thread set as in
+    the example above, where the code as it is (`Op.prog`) is covered by
+    `quiescent_wf_with_batch_calls_partial`. -/
+theorem batch_create_edges_without_stripe_lock_witness :
+    ¬ QuiescentWFBatchWithoutStripeLock twoNodes [[bce12], [e12]] := by
+  intro h
+  have hw := h [0, 0, 0, 0, 0, 1, 1, 1, 1, 1, 1, 1, 1, 0, 0, 0] (by decide)
+  have h1 := (hw.edge_listed 2 ⟨1, 2, true, 0, 0⟩ (by decide)).2.2.1
+  exact absurd h1 (by decide)
+
+/-! ### concurrent: EVERY operation — the read-modify-write sections of a list are mutually exclusive -/
+
+/-- For EVERY list of operations per thread — all thirteen operations of the model with any arguments:
+    `delete_node` with both of its paths, `batch_delete_nodes` and every other batch call included —
+    from ANY store and under EVERY schedule: two threads are never inside a read-modify-write of the
+    same adjacency list at the same time (`Thread.inRmw`: the thread's last store call was
+    `store.get K`, its next one is `store.put K`; what the harness reads off a real thread's yield trace).
+    So the write-back of `add_edge_to_list` / `remove_edge_from_list` never overwrites an update that
+    another `add_edge_to_list` / `remove_edge_from_list` made after the read, whichever operation either
+    of them is part of.  (`all_ops_WB`: in every operation every `get` of a list key followed by a `put` of
+    that key is bracketed by the acquire and the release of that key's lock.)
+    The statement is about list updates against list updates only: `delete_node` DELETES the lists of
+    its node and `create_node` initialises them outside any section — the node-deletion race
+    (`create_edge_delete_node_race_witness`) is not excluded by it. -/
+theorem list_rmw_sections_exclusive (s0 : St) (programs : List (List Op)) (sched : List Nat)
+    (i j : Nat) (ti tj : Thread) (K : Key) (hij : i ≠ j)
+    (hi : (runSched programs sched s0).1[i]? = some ti) (hj : (runSched programs sched s0).1[j]? = some tj)
+    (h : ti.inRmw K) : ¬ tj.inRmw K :=
+  rmw_exclusive s0 programs sched i j ti tj K hij hi hj h
+
+/-- non-vacuity: after five grants the batch call has read `node:1:out` and is about to write it … -/
+example : ∃ t, (runSched [[bce12], [e12], [.deleteNode 2 []]] [0, 0, 0, 0, 0] twoNodes).1[0]? = some t ∧
+    t.inRmw (.out 1) := ⟨_, rfl, by decide⟩
+
+/-- … and whatever is granted to `create_edge(1,2)` from there, it does not get between that read and
+    the write-back (here: it stops at the lock) -/
+example : ∀ t, (runSched [[bce12], [e12]] [0, 0, 0, 0, 0, 1, 1, 1, 1, 1, 1, 1] twoNodes).1[1]? = some t →
+    ¬ t.inRmw (.out 1) :=
+  fun t ht => list_rmw_sections_exclusive twoNodes [[bce12], [e12]] [0, 0, 0, 0, 0, 1, 1, 1, 1, 1, 1, 1] 0 1 _ t (.out 1)
+    (by decide) rfl ht (by decide)
+
+/-- With `batch_create_edges` appending outside the lock (`Op.progBatchWithoutStripeLock`) the statement
+    fails: after these ten grants BOTH threads have read `node:1:out` and are about to write it back. -/
+theorem batch_without_stripe_lock_sections_overlap_witness :
+    ∃ t0 t1, (runSchedWith Op.progBatchWithoutStripeLock [[bce12], [e12]] [0, 0, 0, 0, 0, 1, 1, 1, 1, 1] twoNodes).1[0]? = some t0 ∧
+      (runSchedWith Op.progBatchWithoutStripeLock [[bce12], [e12]] [0, 0, 0, 0, 0, 1, 1, 1, 1, 1] twoNodes).1[1]? = some t1 ∧
+      t0.inRmw (.out 1) ∧ t1.inRmw (.out 1) :=
+  ⟨_, _, rfl, rfl, by decide, by decide⟩
 
 /-! ### concurrent: operation sets with pairwise disjoint footprints (any operations) -/
 
